@@ -127,6 +127,107 @@ def translate_update_agents(repo):
             f"Definition update_agents_gen (st : store) (logs : list pylog) : pres store := pfold update_agents_step_gen logs st.\n")
 
 
+def translate_index(repo, method, getter, coq_name):
+    """IndexMarket.compute_market_index / compute_fundamental_index: two accumulators over the components, then a division.
+    Accepted: the defaulting `if time is None: time = self.get_time()`; `acc: float|int = 0`; one `for m in self._components:` whose
+    body binds value locals and adds to the accumulators; `return a / b`.  The loop variable may only be read through
+    `m.<getter>(time=time)` (the component's value at the asked time: first projection of the generated argument) and
+    `m.outstanding_shares` (second projection); `cast(T, e)` is e."""
+    path, cls = "pams/index_market.py", "IndexMarket"
+    fn = _find(repo, path, cls, method)
+    a = fn.args
+    if ([x.arg for x in a.args] != ["self", "time"] or a.vararg or a.kwarg or a.kwonlyargs or len(a.defaults) != 1
+            or not (isinstance(a.defaults[0], ast.Constant) and a.defaults[0].value is None)):
+        raise Unsupported("signature of " + method)
+    body = [s for s in fn.body if not _is_doc(s)]
+    if not body or ast.unparse(body[0]) != "if time is None:\n    time = self.get_time()":
+        raise Unsupported("the defaulting of `time`")
+    body = body[1:]
+    accs = {}           # accumulator -> type
+    while body and isinstance(body[0], ast.AnnAssign) and isinstance(body[0].target, ast.Name):
+        s0 = body[0]
+        ty = {"float": "Q", "int": "Z"}.get(ast.unparse(s0.annotation))
+        if ty is None or not (isinstance(s0.value, ast.Constant) and s0.value.value == 0 and not isinstance(s0.value.value, bool)):
+            raise Unsupported("accumulator " + ast.unparse(s0))
+        if s0.target.id in accs:
+            raise Unsupported("accumulator declared twice")
+        accs[s0.target.id] = ty
+        body = body[1:]
+    if len(body) != 2 or not isinstance(body[0], ast.For) or not isinstance(body[1], ast.Return) or not accs:
+        raise Unsupported("shape: accumulators, one loop, return")
+    loop, ret = body
+    if not isinstance(loop.target, ast.Name) or ast.unparse(loop.iter) != "self._components" or loop.orelse:
+        raise Unsupported("loop header " + ast.unparse(loop)[:80])
+    v = loop.target.id
+    reads = {f"{v}.{getter}(time=time)": ("(fst comp)", "Q"), f"{v}.outstanding_shares": ("(snd comp)", "Z")}
+
+    class Uncast(ast.NodeTransformer):
+        def visit_Call(self, n):
+            self.generic_visit(n)
+            if isinstance(n.func, ast.Name) and n.func.id == "cast" and len(n.args) == 2 and not n.keywords:
+                return n.args[1]
+            return n
+    tr = Tr(Unit(path, cls, method, coq_name, {}, "Q"))
+    env = {"@bound": (), "@popped": ()}
+    for n, ty in accs.items():
+        env[n] = (n, ty)
+    lines = []
+
+    class Pin(ast.NodeTransformer):
+        """the two pinned reads of the loop variable become fresh names"""
+        def visit(self, n):
+            if isinstance(n, ast.expr) and ast.unparse(n) in reads:
+                return ast.copy_location(ast.Name(id="__read_%d" % list(reads).index(ast.unparse(n)), ctx=ast.Load()), n)
+            return self.generic_visit(n)
+    for i, r_ in enumerate(reads):
+        env["__read_%d" % i] = reads[r_]
+
+    def value(e):
+        e2 = Pin().visit(Uncast().visit(ast.parse(ast.unparse(e), mode="eval").body))
+        if any(isinstance(n, ast.Name) and n.id == v for n in ast.walk(e2)):
+            raise Unsupported("the loop variable is read in another way: " + ast.unparse(e))
+        return tr.value(e2, env)
+    for s in loop.body:
+        if isinstance(s, (ast.Assign, ast.AnnAssign)):
+            tgt = s.targets[0] if isinstance(s, ast.Assign) and len(s.targets) == 1 else getattr(s, "target", None)
+            if not isinstance(tgt, ast.Name) or s.value is None or tgt.id in env or tgt.id == v:
+                raise Unsupported("assignment " + ast.unparse(s)[:80])
+            t, ty = value(s.value)
+            ty = "Z" if ty == "Zlit" else ty
+            lines.append(f"let {tgt.id} := {t} in")
+            env[tgt.id] = (tgt.id, ty)
+        elif (isinstance(s, ast.AugAssign) and isinstance(s.op, ast.Add) and isinstance(s.target, ast.Name)
+              and s.target.id in accs):
+            n, ty = s.target.id, accs[s.target.id]
+            t = coerce(*value(s.value), ty)
+            lines.append(f"let {n} := {'qadd ' + n + ' ' + t if ty == 'Q' else '(' + n + ' + ' + t + ')%Z'} in")
+        else:
+            raise Unsupported("statement " + ast.unparse(s)[:100])
+    r = ret.value
+    if not (isinstance(r, ast.BinOp) and isinstance(r.op, ast.Div) and isinstance(r.left, ast.Name) and isinstance(r.right, ast.Name)
+            and r.left.id in accs and r.right.id in accs):
+        raise Unsupported("return " + ast.unparse(ret))
+    names = list(accs)
+    tup = "(" + ", ".join(names) + ")"
+    tys = " * ".join({"Q": "Q", "Z": "Z"}[accs[n]] for n in names)
+    init = "(" + ", ".join("(0 # 1)" if accs[n] == "Q" else "0%Z" for n in names) + ")"
+    num, den = coerce(r.left.id, accs[r.left.id], "Q"), coerce(r.right.id, accs[r.right.id], "Q")
+    return (f"(* {path}: {cls}.{method} *)\n"
+            f"Definition {coq_name}_step (acc : {tys}) (comp : Q * Z) : {tys} :=\n  let '{tup} := acc in\n  "
+            + "\n  ".join(lines) + f"\n  {tup}.\n"
+            f"Definition {coq_name} (comps : list (Q * Z)) : pres Q :=\n  let '{tup} := fold_left {coq_name}_step comps {init} in\n"
+            f"  pdiv {num} {den}.\n")
+
+
+def translate_index_all(repo):
+    out = ["(* GENERATED by harness/py2coq_state.py - do not edit *)",
+           "Require Import Pams.Prelude Pams.Match Pams.Market Pams.OrderPy Pams.Sim Pams.StatePy.",
+           "From Coq Require Import QArith.", "Open Scope Z_scope.", "",
+           translate_index(repo, "compute_market_index", "get_market_price", "market_index_gen"),
+           translate_index(repo, "compute_fundamental_index", "get_fundamental_price", "fundamental_index_gen")]
+    return "\n".join(out)
+
+
 def translate_all(repo):
     out = ["(* GENERATED by harness/py2coq_state.py - do not edit *)",
            "Require Import Pams.Prelude Pams.Match Pams.Market Pams.OrderPy Pams.Sim Pams.StatePy.",
@@ -135,4 +236,5 @@ def translate_all(repo):
 
 
 if __name__ == "__main__":
-    sys.stdout.write(translate_all(os.environ.get("PAMS_REPO", "/repo")))
+    which = sys.argv[1] if len(sys.argv) > 1 else "C05"
+    sys.stdout.write((translate_index_all if which == "C17" else translate_all)(os.environ.get("PAMS_REPO", "/repo")))
